@@ -753,13 +753,14 @@ struct StreamWorld : World {
                 GuardBuf cb(sizeof(ascon_state_t), 0, c.page, 0x3C);
                 ascon_state_t *cp = (ascon_state_t *)cb.p;
                 uint8_t a[40], b2[40];
+                // documented protocol: destination acquired, source released (the checker build allows one acquired state at a time)
+                ascon_release(st);
                 ascon_init(cp);
-                ascon_release(st); // documented protocol: destination acquired, source released
                 ascon_copy(cp, st);
-                ascon_acquire(st);
-                ascon_extract_bytes(st, a, 0, 40);
                 ascon_extract_bytes(cp, b2, 0, 40);
                 ascon_free(cp);
+                ascon_acquire(st);
+                ascon_extract_bytes(st, a, 0, 40);
                 if (c.record) {
                     // (whether the copy equals the original is C08 matter - a pure function, not claimed; the bytes enter the C09 digest)
                     (void)a;
